@@ -66,4 +66,6 @@ if __name__ == '__main__':
     ap.add_argument('prop'); ap.add_argument('--tier', default=os.environ.get('VERIF_TIER', 'quick'))
     ap.add_argument('--only'); ap.add_argument('--caps')
     a = ap.parse_args()
+    if getattr(a, 'only', None) or getattr(a, 'caps', None):
+        os.environ['VERIF_PARTIAL'] = '1'
     sys.exit(main(a.prop, a.tier, a.only, [int(x) for x in a.caps.split(',')] if a.caps else None))
